@@ -31,6 +31,7 @@ func (c *fakeConn) Read(b []byte) (int, error) {
 	}
 	return 0, io.EOF
 }
+
 // VerifContent: the bytes a stream reader will eventually get (TCP delivers the concatenation of
 // the segments, however they were cut).
 func (c *fakeConn) VerifContent() []byte {
@@ -150,12 +151,13 @@ func c20Module(module string, preferKind int) {
 	vr.Reach("end")
 }
 
-func Verif_C20_Generic()   { c20Module(constants.GenericModule, gStr) }
-func Verif_C20_String()    { gByteStrings = 2; c20Module(constants.StringModule, gStr) }
-func Verif_C20_Hash()      { c20Module(constants.HashModule, gHash) }
-func Verif_C20_List()      { c20Module(constants.ListModule, gList) }
-func Verif_C20_Set()       { c20Module(constants.SetModule, gSet) }
-func Verif_C20_SortedSet() { c20Module(constants.SortedSetModule, gZSet) }
+func Verif_C20_Generic()     { c20Module(constants.GenericModule, gStr) }
+func Verif_C20_String()      { gByteStrings = 2; c20Module(constants.StringModule, gStr) }
+func Verif_C20_Hash()        { c20Module(constants.HashModule, gHash) }
+func Verif_C20_List()        { c20Module(constants.ListModule, gList) }
+func Verif_C20_Set()         { c20Module(constants.SetModule, gSet) }
+func Verif_C20_SortedSet_A() { gCmdPart, gCmdParts = 0, 2; c20Module(constants.SortedSetModule, gZSet) }
+func Verif_C20_SortedSet_B() { gCmdPart, gCmdParts = 1, 2; c20Module(constants.SortedSetModule, gZSet) }
 
 // Verif_C20_Flush: FLUSHDB empties only the selected database, FLUSHALL empties all.
 func Verif_C20_Flush() {
